@@ -108,7 +108,7 @@ func BFS(cfg BFSConfig, body func(*Ctx)) *BFSResult {
 			res.CapHit = fmt.Sprintf("max depth %d (frontier %d states)", cfg.MaxDepth, len(frontier))
 			break
 		}
-		if !cfg.Deadline.IsZero() && time.Now().After(cfg.Deadline) {
+		if StopAll.Load() || !cfg.Deadline.IsZero() && time.Now().After(cfg.Deadline) {
 			res.CapHit = fmt.Sprintf("deadline at depth %d", depth)
 			break
 		}
